@@ -465,7 +465,7 @@ pub fn c05_dijkstra_pred_base_n3() {
 }
 
 // Inductive step of DijkstraPred::next from ANY invariant state (3 vertices, <= 3 heap entries): tree condition for every yield.
-// @verif prop=C05 tier=quick fl=f2 role=dijkstra-inductive/step t=3000 mem=24 feat=cap4
+// @verif prop=C05 tier=thorough fl=f2 role=dijkstra-inductive/step t=3000 mem=24 feat=cap4
 #[cfg_attr(kani, kani::proof)]
 #[cfg_attr(kani, kani::unwind(6))]
 pub fn c05_dijkstra_pred_step_n3_h3() {
@@ -486,4 +486,13 @@ pub fn c05_dijkstra_pred_step_large_n3_h3() {
 #[cfg_attr(kani, kani::unwind(5))]
 pub fn c05_dijkstra_pred_wrappers_n2() {
     pred_wrappers_n2();
+}
+
+// Quick form of the inductive step: pre-states with <= 2 heap entries (a stale and a live one suffice for the
+// early-None defect); the <= 3 form is thorough.
+// @verif prop=C05 tier=quick fl=f2 feat=cap4 role=dijkstra-inductive/step t=900 mem=20
+#[cfg_attr(kani, kani::proof)]
+#[cfg_attr(kani, kani::unwind(6))]
+pub fn c05_dijkstra_pred_step_n3_h2() {
+    pred_step::<2, 4>(256);
 }
